@@ -34,10 +34,6 @@ Fixpoint drop_index (m seen : N) (os : list outcome) : option nat :=
 Definition drop_index_opt (limit : option N) (os : list outcome) : option nat :=
   match limit with None => None | Some m => drop_index m 0 os end.
 
-(* declarative reading of the same thing: position i ends a run of (at least) m timeouts *)
-Definition run_of_timeouts_ends_at (m : nat) (os : list outcome) (i : nat) : Prop :=
-  (m <= S i)%nat /\ forall j, (S i - m <= j)%nat -> (j <= i)%nat -> nth_error os j = Some Timeout.
-
 (* ---- C12: the instant a timer with resolution `res` fires for a deadline: the first multiple
    of `res` at or after the deadline (res = 1: the deadline itself; tokio's timer wheel: 1 ms) ---- *)
 Definition fires_at (res deadline : N) : N :=
